@@ -667,6 +667,15 @@ class NumAnalysis:
                         self.assign_int(st, ("v", dpl[0], fproj), self.ev_operand(st, fo), fty)
                     elif is_slice_ref(fty):
                         self.assign_int(st, ("len", dpl[0], fproj), self.ev_len_of_ref(st, fo), None, clamp=False)
+                    elif fty == "bool":
+                        # a comparison result stored in a component (`match (a_ok, x == y)`) keeps its meaning
+                        fpj = fo.get("cp") or fo.get("mv")
+                        if fpj is not None:
+                            sv = place_var(mk_place(fpj))
+                            if sv in st.bools:
+                                st.bools[("v", dpl[0], fproj)] = st.bools[sv]
+                        elif "k" in fo and "bool" in (fo["k"] or {}):
+                            st.bools[("v", dpl[0], fproj)] = ("Eq", ("c", 1 if fo["k"]["bool"] else 0), ("c", 1))
             return
         if "bin" in rv and "WithOverflow" in rv["bin"]:
             val, a, b = self.ev_bin(st, rv["bin"], rv["a"], rv["b"], rv.get("ty"))
@@ -1054,6 +1063,8 @@ class NumAnalysis:
                         break
                     continue
                 if t.startswith("&mut"):
+                    if is_slice_ref(t):
+                        continue  # a `&mut [T]` can change elements only: no tracked integer or length is reachable through it
                     pj = a.get("mv") or a.get("cp")
                     root = self.ref_root_deep(mk_place(pj)) if pj is not None else None
                     if root is not None and self._havoc_by_modset(st, c, a, root):
